@@ -181,7 +181,23 @@ func sanitize(s string) string {
 	return sb.String()
 }
 
+// deepUnalias replaces alias types (os.FileMode = io/fs.FileMode) by the types they denote, so
+// that the program and the contracts name the same heaps.
+func deepUnalias(t types.Type) types.Type {
+	t = types.Unalias(t)
+	switch u := t.(type) {
+	case *types.Pointer:
+		return types.NewPointer(deepUnalias(u.Elem()))
+	case *types.Slice:
+		return types.NewSlice(deepUnalias(u.Elem()))
+	case *types.Map:
+		return types.NewMap(deepUnalias(u.Key()), deepUnalias(u.Elem()))
+	}
+	return t
+}
+
 func (vc *VC) typeKey(t types.Type) string {
+	t = deepUnalias(t)
 	s := types.TypeString(t, func(p *types.Package) string { return shortPkg(p.Path()) })
 	if len(s) > 80 {
 		// anonymous struct etc: hash
